@@ -6,6 +6,7 @@
 //@ file-needs: cz
 //@ file-inject: src/io/sys/unix/mod.rs
 //@ file-modpath: io::sys
+//@ file-mirror: src/io/sys/unix/mod.rs :: if likely(is_coroutine) { match get_co_para() { None => Ok(()), Some(err) => Err(err), } } else {
 use super::*;
 use crate::coroutine_impl::vk_support as sup;
 use crate::coroutine_impl::EventSource;
